@@ -36,12 +36,13 @@ CONSTANTS
   Deviations = %(dev)s
   Deterministic = %(det)s
   Preamble <- %(preamble)s
+  Traffic = %(traffic)s
   Emit = %(emit)s
 %(tail)s
 CHECK_DEADLOCK FALSE
 """
 
-MC_TAIL = "VIEW MCView\nINVARIANTS TypeOK P_C08_ExactlyOnce P_C08_Converged P_C08_BaseCount"
+MC_TAIL = "VIEW MCView\nINVARIANTS TypeOK P_C08_ExactlyOnce P_C08_Converged P_C08_BaseCount P_C08_NoStaleAccept"
 LIVE_TAIL = "VIEW MCView\nPROPERTY P_C08_SoftStopCompletes"
 GEN_TAIL = "VIEW GenView\nINVARIANTS EmitState"
 TRACE_TAIL = "CONSTRAINT Track\nINVARIANTS TypeOK P_C08_ExactlyOnce P_C08_BaseCount\nPOSTCONDITION TraceAccepted"
@@ -54,12 +55,13 @@ def tla_set(xs):
 def write_cfg(wd, name, **kw):
     d = dict(spec="Spec", listeners=["hA", "tC"], clusters=["c1", "c2"], hfronts=["f1", "f3"],
              tfronts=["t1", "t2"], backends=["b1"], verbs="VerbsCore", maxreq=4, afterstop="AfterStopKinds",
-             dev=[], det=False, preamble="NoPreamble", emit=False, tail=MC_TAIL)
+             dev=[], det=False, preamble="NoPreamble", emit=False, traffic=False, tail=MC_TAIL)
     d.update(kw)
     for k in ("listeners", "clusters", "hfronts", "tfronts", "backends", "dev"):
         d[k] = tla_set(d[k])
     d["det"] = "TRUE" if d["det"] else "FALSE"
     d["emit"] = "TRUE" if d["emit"] else "FALSE"
+    d["traffic"] = "TRUE" if d["traffic"] else "FALSE"
     path = os.path.join(wd, name)
     with open(path, "w") as f:
         f.write(CFG % d)
